@@ -130,7 +130,15 @@ def nt_recv_or_clnt(mode, case):
     return nt_recv(mode, case) if case.startswith("RS") else nt_clnt(mode, case)
 
 
-NONTRIVIAL = {"C04": nt_srvseq, "C05": nt_srvseq, "C12": nt_srvseq, "C09": nt_clnt, "C10": nt_clnt,
+def nt_conc(mode, case):
+    # non-trivial: at least two requests outstanding at once (two arrivals before a send), distinct by content
+    t = case.split()
+    if t[0] != "CH":
+        return h(case[:50000])
+    return h(case[:200000]) if case.count(" A ") >= 3 else None
+
+
+NONTRIVIAL = {"C03": nt_conc, "C07": nt_conc, "C08": nt_conc, "C11": nt_conc, "C04": nt_srvseq, "C05": nt_srvseq, "C12": nt_srvseq, "C09": nt_clnt, "C10": nt_clnt,
               "C16": nt_tree, "C17": nt_tree, "C18": nt_tree, "C14": nt_ufs, "C15": nt_ufs, "C20": nt_log, "C01": nt_codec, "C02": nt_codec, "C13": nt_recv_or_clnt}
 
 
@@ -179,6 +187,35 @@ PROPS = {
         "rule": "directories of 0, 1, 2, 5, 50 (thorough: up to 5000) entries with name lengths 1..255 on a scratch tree, msize {512, 4096, 65536}, both dialects; listings following the offset rule for every count from the largest entry size to three entries (exhaustive for small directories), random counts otherwise, too-small counts (max-1, 1, 0, first-1), restart at offset 0 mid-listing, arbitrary offsets (past the end, inside an entry, on boundaries) with counts 0/max/iounit, and the client's Readdir(0). Oracle (from the decoded record sizes and os.ReadDir only): every reply consists of whole entries, <= count bytes, offsets chain, complete set exactly once, error iff the next entry does not fit; correspondence: the Coq dir_window/listing model fed with the observed entry sizes predicts the same chunks and outcome. Non-trivial: a listing of >= 2 replies or a too-small case, and every off-rule offset case; distinct by content.",
         "level_text": "Coq theorems (Props/C15.v) over the arithmetic model (Go int as Z) of the directory branch of Ufs.Read: for every listing (any number of entries, any positive sizes), every offset and count: a reply consists of whole consecutive entries of at most count bytes and is non-empty while entries remain; following the offset rule with counts >= the largest entry yields every entry exactly once in order and then an empty reply; a count too small for the next entry is an error; Readdir(0) gets everything; off-rule offsets are refused or empty and never an ill-formed slice. Tied to the code by listings of real directories.",
         "level_note": "Trusted: Coq kernel, extraction + OCaml driver, Go harness. The snapshot (entry sizes and order) comes from the OS and is an input of the model; UnpackDir correctness is C01. Print Assumptions: closed under the global context.",
+    },
+    "C03": {
+        "clauses": ["C03"],
+        "modes": [{"name": "srvconc", "harness": "srvconc", "modelcheck": "conc"}],
+        "rule": "real server + scripted implementation whose operations block until the plan releases them: 1..6 simultaneously outstanding requests released in random orders (sync and from other goroutines), duplicate answers with different content, framework rejections mixed in, Maxpend 0/1/4, with and without FlushOp; flush scenarios, tag groups and disconnects (shared with C07/C08/C11). Every schedule point of the library is logged and the label list is REPLAYED through the Coq LTS (each label must be enabled; the model's wire must equal the real one as a multiset); oracle on the real wire: no reply for a tag without request, at most one reply per request, content one of the answers produced for that request, answered requests get their reply. Non-trivial: >= 3 requests in the history; distinct by content.",
+        "level_text": "Coq theorems (Props/C03.v) over the life-cycle LTS of a connection (recv linking, process() test of reqFlush/reqWork, Respond as R1 test-and-set / PostProcess / enqueue / unlink / next-of-tag-group / flush loop, send goroutine, Flush, flush, version, disconnect) for EVERY reachable state - any number of outstanding requests, any interleaving, any number of answers from any goroutine: at most one reply per request is ever queued or written; every reply carries the tag of a received request and a content packed for that request (exactly the answer when there was one answer); at quiescence on an open connection every answered, not cancelled request has exactly one reply on the wire. Tied to the code by replaying real schedule-point traces through the LTS.",
+        "level_note": "Trusted: Coq kernel; extraction + OCaml driver; the Go harness: the translation of the library's schedule points (verifPoint hooks, logged under one mutex inside the library's own critical sections) into LTS labels, the scripted implementation, the fake transport. The LTS over-approximates call/return of nested Respond calls (every real schedule is a schedule of the LTS); mutex atomicity, channel FIFO/rendezvous and goroutine semantics of the Go runtime are assumed; the fid table and message contents are abstracted (C04/C05 and content ids); reply-buffer recycling between requests is exercised by the harness only. Print Assumptions: closed under the global context.",
+    },
+    "C07": {
+        "clauses": ["C07"],
+        "modes": [{"name": "srvconc", "harness": "srvconc", "modelcheck": "conc"}],
+        "rule": "Tflush arriving at every stage of the target's life: in the same segment as the target (before it starts), while it is blocked in the implementation (with and without FlushOp, implementation agreeing to cancel or not), while the implementation answers concurrently, after the reply, unknown tag, flush of a flush and two flushes of one request, a Tflush naming itself / two naming each other (known finding); Maxpend 0/1/4. Replay of the schedule-point trace through the LTS plus oracle on the real wire: every Tflush answered once, the target's reply never after the Rflush, and when no reply preceded the Rflush the target is not handed to the implementation afterwards. Non-trivial: >= 3 requests; distinct by content.",
+        "level_text": "Coq theorems (Props/C07.v) over the life-cycle LTS, for EVERY reachable state and schedule: if both the flushed request's reply and the Rflush are written the reply comes first; once the Rflush is on the wire without a preceding reply the target is never handed to the implementation afterwards and never answered; a request whose reqFlush bit is set before any goroutine worked on it is never executed, and the flush handler cancels only such requests; every Tflush whose target is an ordinary request is answered exactly once. The unrestricted 'every Tflush is answered' is REFUTED on the faithful model (a Tflush naming its own tag waits for itself), replayed on the real server and recorded as known finding flush-cycle.",
+        "level_note": "Trusted: Coq kernel; extraction + OCaml driver; the Go harness: the translation of the library's schedule points (verifPoint hooks, logged under one mutex inside the library's own critical sections) into LTS labels, the scripted implementation, the fake transport. The LTS over-approximates call/return of nested Respond calls (every real schedule is a schedule of the LTS); mutex atomicity, channel FIFO/rendezvous and goroutine semantics of the Go runtime are assumed; the fid table and message contents are abstracted (C04/C05 and content ids); reply-buffer recycling between requests is exercised by the harness only. Print Assumptions: closed under the global context. Shared-tag targets are outside the quantifier (hypothesis NoGroups).",
+    },
+    "C08": {
+        "clauses": ["C08"],
+        "modes": [{"name": "srvconc", "harness": "srvconc", "modelcheck": "conc"}],
+        "rule": "requests held blocked in the implementation while others are issued, answered and must complete (every history must finish within its deadline), release in random orders, tag groups of 2/3/5/8 requests sharing one tag mixed with other tags, Maxpend 0/1/4. Replay through the LTS plus oracle: group members are handed to the implementation in arrival order, one at a time, replies in arrival order, none starved; no request waits for an unrelated blocked one. Non-trivial: >= 3 requests; distinct by content.",
+        "level_text": "Coq theorems (Props/C08.v) over the life-cycle LTS, for EVERY reachable state: a Respond in progress can be completed using only steps of that invocation and of the send goroutine (constructively: a finite step sequence exists), whatever other requests are blocked in the implementation; a worker that does not wait for the implementation can always take its next step; of requests sharing a tag the newer one is not started before the older one's reply has been queued, and their replies are written in arrival order. 'Never delays' is rendered as: no step of a request's own path depends on another request.",
+        "level_note": "Trusted: Coq kernel; extraction + OCaml driver; the Go harness: the translation of the library's schedule points (verifPoint hooks, logged under one mutex inside the library's own critical sections) into LTS labels, the scripted implementation, the fake transport. The LTS over-approximates call/return of nested Respond calls (every real schedule is a schedule of the LTS); mutex atomicity, channel FIFO/rendezvous and goroutine semantics of the Go runtime are assumed; the fid table and message contents are abstracted (C04/C05 and content ids); reply-buffer recycling between requests is exercised by the harness only. Print Assumptions: closed under the global context. Scheduler fairness and transport progress (the send goroutine gets to run, the peer reads) are assumed; several connections share no state in the model (one LTS per connection).",
+    },
+    "C11": {
+        "clauses": ["C11"],
+        "modes": [{"name": "srvconc", "harness": "srvconc", "modelcheck": "conc"},
+                  {"name": "srvseq-random", "harness": "srvseq", "modelcheck": "srvseq", "args": ["random"]}],
+        "rule": "disconnect with 0..4 requests blocked in the implementation, some answered before and the rest after the disconnect in random orders (sync and async), Maxpend 0/1/4: the schedule-point trace is replayed through the LTS and every Respond invocation must have finished (no goroutine left inside Respond), ConnClosed exactly once; sequential histories ending in a disconnect: every fid still valid (per the abstract fid set) is destroyed exactly once at close, nothing else is. Non-trivial: >= 3 requests; distinct by content.",
+        "level_text": "Coq theorems (Props/C11.v) over the life-cycle LTS for EVERY reachable state: after the disconnect nothing is written or received, the disconnect cannot happen twice, and no Respond ever blocks (every goroutine still answering for the dead connection can finish); with the sequential model's invariant (one reference per fid) the close path destroys each remaining fid exactly once. Tied to the code by trace replay of disconnect histories and by the close events of sequential histories.",
+        "level_note": "Trusted: Coq kernel; extraction + OCaml driver; the Go harness: the translation of the library's schedule points (verifPoint hooks, logged under one mutex inside the library's own critical sections) into LTS labels, the scripted implementation, the fake transport. The LTS over-approximates call/return of nested Respond calls (every real schedule is a schedule of the LTS); mutex atomicity, channel FIFO/rendezvous and goroutine semantics of the Go runtime are assumed; the fid table and message contents are abstracted (C04/C05 and content ids); reply-buffer recycling between requests is exercised by the harness only. Print Assumptions: closed under the global context. Not covered by a theorem: fids created by requests that complete after the close loop (they are reclaimed only by the garbage collector), Ufs closing its descriptors (FidDestroy -> Close is one line, exercised by the Ufs harness sessions), goroutine counts (checked through the model's finished-frames criterion, not through the runtime).",
     },
     "C04": {
         "clauses": ["C04"],
